@@ -114,8 +114,11 @@ def make_executor(mir_path, src_root, **kw):
     return ex
 
 
-def find_fn(ex, suffix, contains=None):
-    c = [f for n, f in ex.fns.items() if n.endswith(suffix) and (contains is None or contains in n)]
+def find_fn(ex, suffix, contains=None, p0=None, nparams=None):
+    """look a crate function up by name suffix (never by line number: edits shift `impl at` positions)"""
+    c = [f for n, f in ex.fns.items() if n.endswith(suffix) and (contains is None or contains in n)
+         and (p0 is None or (f.params and p0 in f.params[0][1]))
+         and (nparams is None or len(f.params) == nparams)]
     if len(c) != 1:
         raise KeyError(f"{suffix}: {len(c)} candidates: {[f.name for f in c][:5]}")
     return c[0]
